@@ -138,3 +138,19 @@ Proof.
   split; [exact (C13_enum_range input false f s E)|]. exact (proj2 (proj1 (validate_rec f) V)).
 Qed.
 Print Assumptions C13_accepted.
+
+(* The validator model's list of primitive type names (Valid.prims, hand-written: "a definition named like a primitive", and the
+   names every field type may use) is the source's primitiveTypes table as translator T2 regenerates it on every run. *)
+Require Import Bebop.gen.Tables.
+From Coq Require Import String Ascii.
+Definition bytes_of_string13 (s : string) : list N := map (fun a => N.of_nat (nat_of_ascii a)) (list_ascii_of_string s).
+Definition C13_prims_statement : Prop := forall b : bytes, In b prims <-> In b (map bytes_of_string13 primitive_types).
+Theorem C13_prims : C13_prims_statement.
+Proof.
+  assert (A : forallb (fun b => existsb (fun p => if list_eq_dec N.eq_dec p b then true else false) (map bytes_of_string13 primitive_types)) prims = true) by (vm_compute; reflexivity).
+  assert (B : forallb (fun b => existsb (fun p => if list_eq_dec N.eq_dec p b then true else false) prims) (map bytes_of_string13 primitive_types) = true) by (vm_compute; reflexivity).
+  rewrite forallb_forall in A, B. intros b. split; intros H.
+  - specialize (A b H). apply existsb_exists in A. destruct A as (p & Hp & E). destruct (list_eq_dec N.eq_dec p b); [subst; exact Hp|discriminate].
+  - specialize (B b H). apply existsb_exists in B. destruct B as (p & Hp & E). destruct (list_eq_dec N.eq_dec p b); [subst; exact Hp|discriminate].
+Qed.
+Print Assumptions C13_prims.
